@@ -29,7 +29,7 @@ def reverts():
             continue
         try:
             suite = sh("cd /repo && /venv/bin/python -m pytest -q -p no:cacheprovider --timeout=900 2>&1 | tail -1").stdout.strip()
-            rr = sh(f"cd /verif && ./check {prop} --tier quick")
+            rr = sh(f"cd /verif && VERIF_EVIDENCE_DIR=/verif/.work/seeded-evidence ./check {prop} --tier quick")
             lines = [l for l in rr.stdout.splitlines() if l.startswith("VIOLATION")]
             res = {"exit": rr.returncode, "lines": [l[:300] for l in lines][:3]}
             for l in lines:
@@ -78,7 +78,7 @@ def main():
             res = {}
             for p in [prop] + also:
                 t0 = time.time()
-                rr = sh(f"cd /verif && ./check {p} --tier {tier}")
+                rr = sh(f"cd /verif && VERIF_EVIDENCE_DIR=/verif/.work/seeded-evidence ./check {p} --tier {tier}")
                 lines = [l for l in rr.stdout.splitlines() if l.startswith(("VIOLATION", "KNOWN-FINDING"))]
                 res[p] = {"exit": rr.returncode, "lines": [l[:300] for l in lines if l.startswith("VIOLATION")][:3], "wall_s": round(time.time() - t0, 1)}
                 if rr.returncode != 0:
